@@ -19,3 +19,11 @@ def _md(alg, unit, extra=None):
     return j
 
 JOBS = [_md(a, u) for a in ("md5", "md4") for u in ("init", "update", "final")]
+
+JOBS += [
+    {"name": "hmac_sha1", "props": ["C16", "C02", "C09"], "functions": ["hmac_sha1_process_data"],
+     "harness": "harness/hmac_sha1.c", "defs": ["XV_BZERO_EVENTS=1"],
+     "repo_src": ["lib/alg-hmac-sha1.c"], "verif_src": ["models/strings.c"],
+     "unwind": 66, "mem_gb": 4, "timeout": 600, "no_native": True,
+     "assumptions": ["A-det: SHA-1 is a function of its input (digests are arbitrary but recorded); the SHA-1 primitive itself is not under contract"]},
+]
